@@ -355,6 +355,20 @@ func C17(c *run.Ctx) {
 				}
 			}
 			c.Count("c17_header_body_mismatch_pushes", 1)
+			// the same with client_id given twice: the foreign id first (the one the request is validated and filed under), the
+			// authenticated client's own id second
+			f2 := goodForm("conf-b")
+			f2["client_id"] = []string{"conf-b", "conf-a"}
+			out2 := w.PAR(f2, world.Basic("conf-a", "secret-of-a"))
+			c.Case(fmt.Sprintf("push header-client=conf-a body-client_id=[conf-b conf-a] accepted=%v err=%s", out2.Err == nil, out2.ErrName))
+			hist = append(hist, fmt.Sprintf("push authenticated as conf-a with client_id=conf-b&client_id=conf-a in the body => %s %s", out2.S("request_uri"), world.ErrDetail(out2.Err)))
+			if out2.Err == nil {
+				az := w.Authorize(url.Values{"client_id": {"conf-b"}, "request_uri": {out2.S("request_uri")}}, world.Consent{})
+				if az.Err == nil && (az.Params.Get("code") != "" || az.Params.Get("access_token") != "") {
+					viol("request-uri-cross-client", "pushed-by-header-client-used-for-body-client (client_id repeated)", "a request pushed by conf-a started an authorization for conf-b, named in the first of two client_id parameters")
+				}
+			}
+			c.Count("c17_header_body_mismatch_pushes", 1)
 		}
 		// ---- unknown / foreign-prefix URIs and enforcement
 		for _, u := range []string{effPrefix + "does-not-exist", "urn:ietf:params:oauth:request_uri:" + "AAAA", "urn:other:prefix:xyz", effPrefix} {
